@@ -134,6 +134,9 @@ pub fn run(ctx: &Ctx) -> i32 {
         // (2) C01 + C02 under this configuration
         let mut l = lens::dense(dense_n);
         l.extend(pool.iter().map(|x| x.0));
+        // a few lengths beyond 2^16 under every configuration (the no-AVX2 level wraps the portable Rader's algorithm
+        // inside AVX plans; 16-bit index arithmetic only shows up there)
+        let big: Vec<usize> = lens::beyond_u16(false).iter().map(|x| x.0).filter(|&n| n < t.pick(65_540, 200_000)).collect();
         let cfg = FloatCfg {
             prop: "C13",
             planners: PK::ALL.to_vec(),
@@ -152,6 +155,10 @@ pub fn run(ctx: &Ctx) -> i32 {
         let mut fr = floatlayer::run(&cfg);
         fr.notes.clear();
         rep.merge(fr);
+        let cfg_big = FloatCfg { planners: PK::DISTINCT.to_vec(), entries: vec![Entry::InPlace, Entry::Immut], lens: big.clone(), full_basis_max: 0, quad_max: 0, ..cfg.clone() };
+        let mut fb = floatlayer::run(&cfg_big);
+        fb.notes.clear();
+        rep.merge(fb);
         // (3) C04 under this configuration
         let mut l4: Vec<usize> = (0..=t.pick(1024, 8192)).collect();
         l4.extend(pool.iter().map(|x| x.0));
